@@ -387,7 +387,7 @@ func c18LockerFlow(t *testing.T, tr *Trace, rng *Rng, a *c18App) {
 			return int64(rng.Intn(int(4 * c18Year)))
 		}
 	}
-	seqs := scale(260, 5000)
+	seqs := scale(260, 3500)
 	for sq := 0; sq < seqs; sq++ {
 		rate0 := rateOf()
 		if rng.Chance(25) {
